@@ -110,7 +110,8 @@ def partition_obligation(_):
 
 
 PORTS = ["COM3", "/dev/ttyACM0", "/dev/tty.usbmodem 14101", "COM=3", "port:1", "a#b", "semi;colon", "100%", "%(x)s", "café",
-         "[env:x]", "x = y", "tab\there"]
+         "[env:x]", "x = y", "tab\there", "{lib_section}", "{port}", "{board}{platform}", "{0}", "{}", "${sysenv.PORT}", "{{x}}",
+         "COM3\\", "a=b=c", ";lead", "#lead", "trail;", "quote\"d", "it's"]
 LIBS = [[], ["Servo"], ["Servo", "Servo"], ["", "Servo", ""], ["Wire", "", "Servo", "Wire"], ["LiquidCrystal", "Servo"],
         ["b", "a", "b", "c", "a"], None, [""]]
 SOURCES = ["void setup(){}\nvoid loop(){}\n", "// café … ü\n", ""]
